@@ -156,7 +156,13 @@ def run(repo: Repo, chk: Check) -> None:
                what=f'{desc}: interpreter outcome {extra_o or [o["exc"] for o in g_fail][:1] or "none"} ; reference outcome {miss or sorted(r_ok)[:1]}')
         # the same case inside `DIP 2 { ... }`: two foreign items in the protected prefix must be out of reach and the visible result the same
         if not r_fail:
-            q2, got2, _ = run_case(repo, prim, args, stack, unroll=5 if thorough else 3, protect=2)
+            try:
+                q2, got2, _ = run_case(repo, prim, args, stack, unroll=5 if thorough else 3, protect=2)
+            except AnalysisError as _e:
+                # the analysis can only trip over a guard value if the instruction took one out of the protected prefix
+                if 'dip_guard' not in str(_e):
+                    raise
+                got2 = [{'kind': 'raise', 'exc': 'an item of the protected prefix reached the instruction: ' + str(_e)[:100], 'decisions': [], 'trace': [], 'events': []}]
             g2_ok = {key(o) for o in got2 if o['kind'] == 'stack' and o.get('prefix_ok')}
             bad2 = [o for o in got2 if o['kind'] == 'raise' or (o['kind'] == 'stack' and (not o.get('prefix_ok') or o.get('protected') != 0))]
             trunc2 = any(o['kind'] == 'truncated' for o in got2)
@@ -500,16 +506,7 @@ def _slice_guard(repo: Repo, chk: Check) -> None:
     if q is None:
         raise AnalysisError('SLICE class not found')
     fi = repo.classes[q].methods['execute']
-    tests = [n for n in ast.walk(fi.node) if isinstance(n, ast.If)]
-    guard = None
-    for n in tests:
-        src = norm(n.test)
-        if 'len' in src and ('start' in src or 'offset' in src):
-            guard = n
-    if guard is None:
-        raise AnalysisError('SLICE: the Some/None guard was not found')
-    some_first = 'from_some' in norm(ast.Module(body=guard.body, type_ignores=[]))
-    # variables of the guard: start (= offset), stop (= offset + length), len(s)
+    # variables of the guard: start (= offset), stop (= offset + length), len(s) - under whatever names
     assigns = {}
     for n in ast.walk(fi.node):
         if isinstance(n, ast.Assign) and isinstance(n.targets[0], ast.Tuple) and isinstance(n.value, ast.Tuple):
@@ -518,6 +515,25 @@ def _slice_guard(repo: Repo, chk: Check) -> None:
                     assigns[tg.id] = v
         elif isinstance(n, ast.Assign) and isinstance(n.targets[0], ast.Name):
             assigns[n.targets[0].id] = n.value
+
+    def mentions_len(e: ast.AST, depth: int = 0) -> bool:
+        """the expression (names expanded through their single assignments) measures the operand with len()"""
+        for x in ast.walk(e):
+            if isinstance(x, ast.Call) and isinstance(x.func, ast.Name) and x.func.id == 'len':
+                return True
+            if isinstance(x, ast.Name) and x.id in assigns and depth < 4 and mentions_len(assigns[x.id], depth + 1):
+                return True
+        return False
+
+    # the Some/None guard: the `if` whose test measures the operand and one of whose arms builds the Some result
+    guard = None
+    for n in [x for x in ast.walk(fi.node) if isinstance(x, ast.If)]:
+        arms = norm(ast.Module(body=n.body + n.orelse, type_ignores=[]))
+        if mentions_len(n.test) and 'from_some' in arms:
+            guard = n
+    if guard is None:
+        raise AnalysisError('SLICE: the Some/None guard was not found')
+    some_first = 'from_some' in norm(ast.Module(body=guard.body, type_ignores=[]))
 
     def ev(e: ast.AST, env: Dict[str, int]) -> Any:
         if isinstance(e, ast.Constant):
